@@ -65,6 +65,8 @@ def run(ctx):
             r = recs[0]
             ctx.sample({"case": r["a"], "request_text": r["history"]["requests"][:1], "response_text": r["history"]["responses"][:1]})
     pooled_schedules(ctx)
+    from checks import growth
+    growth.run_history_and_predicates(ctx)
 
 
 def pooled_schedules(ctx):
